@@ -35,6 +35,10 @@ honest cases (kex x host key algorithm x 0..3 rekeys started by either side):
     server drops the previously agreed host key algorithm from its list. The kex method and host key algorithm
     of every exchange are then derived from the two KEXINITs of THAT exchange as decoded from the wire (first
     client name the server lists), and H / signature algorithm / host key are checked against them.
+    THE API THE CLIENT IS ENTERED THROUGH ("entry", honest and fault sessions alike): start_client(),
+    Transport.connect(username, password) or Transport.connect(hostkey=<key the user expects>, username, password) -
+    the expected key is a public-only key object built from the genuine server's blob (what a known_hosts entry gives).
+    Honest sessions: the server's key IS the expected one, everything above is demanded (and the later re-exchanges).
 fault cases: ONE alteration of the server's reply in exchange number k = 1 + len(rekeys), k in 1..3,
   after k-1 honest exchanges (initiator drawn per exchange). k = 1: `PlainMitm` edits the plaintext
   reply on the link. k >= 2 (encrypted traffic): the non-tested server is a `lying.EditingServer`
@@ -52,13 +56,19 @@ fault cases: ONE alteration of the server's reply in exchange number k = 1 + len
   lying signer ("signer", `lying.LyingSigner` as the server's host key object, honest for the
   first k-1 signatures): genuine signature over H with one bit flipped / over the session id / over
   the previous H, signature made with another algorithm, signature of another key of the same type.
-  Oracle k = 1: start_client raises, the client never sets initial_kex_done and never sends NEWKEYS.
+  impostor ("impostor", exchange 1, entry connect-hostkey): the WHOLE server is swapped for one that holds another host
+  key - another key of the same algorithm, or a key of another type / curve - and runs a perfectly consistent exchange
+  with it (own key blob, genuine signature over H). Nothing in the exchange gives it away, only the user's expectation:
+  connect() must raise, and the server application must not see any authentication attempt (the credentials given to
+  connect() stay with the client); if the exchange completed, get_remote_server_key() is the key that was shown.
+  Oracle k = 1: the entry call (start_client / connect) raises, the client never sets initial_kex_done, never sends
+  NEWKEYS, and the server application never sees an authentication attempt.
   Oracle k >= 2: the client never switches its outbound keys a k-th time, its byte stream (decoded
   by `peers.Tap` under its recorded keys) holds exactly k-1 NEWKEYS, and its transport ends.
 """
 from hypothesis import strategies as st
 
-from vlib import lying, mitm, peers, refkex
+from vlib import core, lying, mitm, peers, refkex
 from vlib import refssh as R
 
 PROPERTY = "C06"
@@ -79,7 +89,16 @@ RULE = (
     "kex and every host key algorithm at least twice on the honest path, every kex once with a short K (initial or re-exchange) "
     "and one method per family with a sign-padded K, every kex for the fault path at k = 1 and k = 2 and "
     "every alteration kind at k = 2 and k = 3, the rest is hypothesis-drawn. non-trivial = fault session, or honest session "
-    "with >= 1 re-exchange or a non-paramiko server; distinct by full case"
+    "with >= 1 re-exchange or a non-paramiko server or entered through a connect() variant; distinct by full case. "
+    "CLIENT ENTRY (classes client-entry:<start_client|connect|connect-hostkey>[:honest|:fault]): every honest and fault session is "
+    "entered through start_client(), Transport.connect(username, password) or Transport.connect(hostkey=expected public key, "
+    "username, password) - rotating over the floors (every host key algorithm honest through connect-hostkey with 0..2 "
+    "re-exchanges; every host key algorithm's K_S swap through connect-hostkey), drawn otherwise; fault kind 'impostor' "
+    "(classes fault:impostor:same-type / other-type, impostor:<which>/<key type>, impostor:refused-at-negotiation / "
+    "refused-after-a-consistent-exchange): the whole server replaced by one holding ANOTHER key of the same algorithm "
+    "(or of another type) that signs consistently with it, against a client entered through connect(hostkey=genuine "
+    "key) - quick runs it for every host key algorithm x {same-type, other-type}; expected: connect() raises and no "
+    "authentication attempt reaches the server application"
 )
 
 KEXES = list(mitm.ALL_KEX)
@@ -130,7 +149,9 @@ def _apply_plan_step(tc, ts, step, prev_hostalg):
     if step.get("sdrop") and prev_hostalg and prev_hostalg != step.get("hostalg"):
         sso = ts.get_security_options()
         left = [a for a in sso.key_types if a != prev_hostalg]
-        if left:
+        # (the server can only drop it if the client still lists another algorithm the server keeps: after an "only"
+        # step, or when connect(hostkey=...) narrowed the client's list, the previous one may be the single common one)
+        if left and any(a in left for a in so.key_types):
             sso.key_types = left
 
 
@@ -150,13 +171,77 @@ KSHAPE_SERVERS = {"ref-short": "short", "ref-signpad": "signpad"}
 IDENT_SOFT = "ABCDEFGHIJKLMNOPQRSTUVWXYZabcdefghijklmnopqrstuvwxyz0123456789_.+"
 IDENT_COMMENT = "".join(chr(c) for c in range(0x20, 0x7F))
 
+# the API the client is ENTERED through (configuration): start_client() - the caller looks at get_remote_server_key()
+# itself -, Transport.connect(username, password) - no expectation about the host key -, or
+# Transport.connect(hostkey=<the key the user expects>, username, password), which pins the server's host key
+ENTRIES = ["start_client", "connect", "connect-hostkey"]
+
+
+class StillBusy(Exception):
+    """connect() had not come back when the harness stopped waiting."""
+
+
+def _expected(key):
+    """The host key the user expects, as a known_hosts entry gives it: a public-only key object built from the blob."""
+    return type(key)(data=key.asbytes())
+
+
+def _enter(tc, ts, entry, expected=None, srv=None, timeout=60.0):
+    """peers.start_both with the client entered through `entry`; returns (client exception, server exception).
+    The connect variants carry the credentials u / pw, so a connect() that returns has authenticated."""
+    import threading
+    import time
+
+    srv = srv if srv is not None else peers.OpenServer()
+    if entry == "start_client":
+        return peers.start_both(tc, ts, srv, timeout=timeout)
+    if entry not in ENTRIES or (entry == "connect-hostkey" and expected is None):
+        raise core.HarnessError("client entry %r (expected key %r)" % (entry, expected))
+    res = {}
+
+    def server():
+        try:
+            ev = threading.Event()
+            ts.start_server(event=ev, server=srv)
+            res["sev"] = ev
+        except BaseException as e:  # recorded for the caller
+            res["s"] = e
+
+    def client():
+        try:
+            if entry == "connect":
+                tc.connect(username="u", password="pw")
+            else:
+                tc.connect(hostkey=expected, username="u", password="pw")
+        except BaseException as e:  # recorded for the caller
+            res["c"] = e
+        res["back"] = True
+
+    th = threading.Thread(target=server, daemon=True)
+    th.start()
+    tcl = threading.Thread(target=client, daemon=True)
+    tcl.start()
+    tcl.join(timeout)
+    if not res.get("back"):
+        return StillBusy("Transport.connect() did not come back within %.0f s" % timeout), res.get("s")
+    th.join(timeout)
+    ev = res.get("sev")
+    if ev is not None and "c" not in res:
+        end = time.time() + timeout
+        while not ev.is_set() and ts.is_active() and time.time() < end:
+            ev.wait(0.05)
+        if not ts.is_active() and "s" not in res:
+            res["s"] = ts.get_exception() or EOFError("server transport inactive")
+    return res.get("c"), res.get("s")
+
+
 # ----------------------------------------------------------------------------- honest sessions
 
 
 def _norm_honest(case):
     """The "server" dimension only exists for ECDH-NIST; drop it elsewhere so that equal sessions
     count as one case."""
-    case = {k: v for k, v in case.items() if not (k in ("ident", "plan") and not v)}
+    case = {k: v for k, v in case.items() if not (k in ("ident", "plan") and not v) and not (k == "entry" and v in (None, "start_client"))}
     if case.get("ident") and not (case["ident"].get("c") or case["ident"].get("s")):
         del case["ident"]
     if case.get("plan"):
@@ -189,7 +274,10 @@ def run_honest(ctx, case):
     plan = case.get("plan")  # None: one (kex, host key algorithm) forced for the whole session
     multi = plan is not None
     optional = server == "ref-compressed"  # point compression MAY be used: completion is not demanded
-    cls = ["honest", "kex:" + kex, "hostalg:" + hostalg, "rekeys:%d" % len(rekeys)]
+    entry = case.get("entry", "start_client")
+    cls = ["honest", "kex:" + kex, "hostalg:" + hostalg, "rekeys:%d" % len(rekeys), "client-entry:" + entry, "client-entry:%s:honest" % entry]
+    if entry == "connect-hostkey":
+        cls.append("client-entry:connect-hostkey:expected-key-is-the-servers:" + hostalg)
     if server != "paramiko":
         cls.append("server:" + server)
     for side in ("c", "s"):
@@ -200,10 +288,12 @@ def run_honest(ctx, case):
         for st_ in plan:
             if st_:
                 cls.append("plan-step:%s%s%s" % (st_.get("mode", "front"), ":hostalg" if st_.get("hostalg") else "", ":kex" if st_.get("kex") else "") + (":server-drops-previous" if st_.get("sdrop") else ""))
-    ctx.case(case, len(rekeys) >= 1 or server != "paramiko" or bool(ident), cls)
+    ctx.case(case, len(rekeys) >= 1 or server != "paramiko" or bool(ident) or entry != "start_client", cls)
     bucket = "%s/%s" % (mitm.kex_family(kex), hostalg)
     if multi:
         bucket += ":plan"
+    if entry != "start_client":
+        bucket += ":via-" + entry
     if any(" " in (ident.get(x) or "") for x in "cs"):
         bucket += ":ident-comment"
     with (mitm.modulus_pack([(2, mitm.group_prime(1024))]) if multi else _pack(kex)):
@@ -224,15 +314,17 @@ def run_honest(ctx, case):
         if ident.get("s"):
             ts.local_version = ident["s"]
         try:
-            ce, se = peers.start_both(tc, ts, timeout=60.0)
+            # (connect-hostkey: the user expects exactly the key this server holds for the algorithm the session starts with)
+            ce, se = _enter(tc, ts, entry, _expected(peers.keypool()[(KEYFORALG if multi else HOSTALG)[hostalg]]) if entry == "connect-hostkey" else None)
             if ce or se:
                 if optional:
                     ctx.count("server:ref-compressed:initial-exchange-refused")
                     return _partial_agreement(ctx, case, bucket, list(tc.v_kh), list(ts.v_kh))
-                ctx.violation("honest-handshake-completes", "%s:%s" % (bucket, type(ce or se).__name__), case, "client=%r server=%r" % (ce, se))
+                ctx.violation("honest-handshake-completes", "%s:%s" % (bucket, type(ce or se).__name__), case, "client entered through %s: client=%r server=%r" % (entry, ce, se))
                 return False
             sids = [(tc.session_id, ts.session_id)]
-            tc.auth_password("u", "pw")
+            if entry == "start_client":
+                tc.auth_password("u", "pw")
             for k, who in enumerate(rekeys):
                 try:
                     if multi and k < len(plan) and plan[k]:
@@ -517,8 +609,80 @@ def fault_label(kex, hostalg, fault):
     return lab
 
 
+def _ktype(hostalg):
+    return HOSTALG[hostalg].rstrip("b").rstrip("0123456789") if not hostalg.endswith("25519") else "ed25519"
+
+
+def run_impostor(ctx, case):
+    """The WHOLE server is swapped: an impostor that holds another host key and runs a perfectly consistent key exchange
+    with it (its own key blob, a genuine signature over H by that key) - nothing in the exchange can give it away, only
+    the user's expectation can. The client is entered through Transport.connect(hostkey=<the genuine server's key>,
+    username, password). "If the host key is swapped, the client aborts": connect() must raise and the credentials
+    must not reach the impostor.
+    fault["key"]: "same-type" = another key of the SAME algorithm (client configured as in every other session: only
+    `hostalg` enabled); "other-type" = a key of another type / curve (client with every host key algorithm enabled:
+    the narrowing to the expected key's algorithms is connect()'s own)."""
+    kex, hostalg, fault = case["kex"], case["hostalg"], case["fault"]
+    which = fault["key"]
+    pool = peers.keypool()
+    genuine = pool[HOSTALG[hostalg]]
+    if which == "same-type":
+        shown = lying.other_key_like(genuine)
+        keys_off = mitm.only(ALLKEYALGS, hostalg)
+    elif which == "other-type":
+        cands = [n for n in ALLHOSTKEYS if pool[n].get_name() != genuine.get_name()]
+        shown = pool[cands[fault.get("n", 0) % len(cands)]]
+        keys_off = []
+    else:
+        raise core.HarnessError("impostor key %r" % (which,))
+    if shown.asbytes() == genuine.asbytes():
+        raise core.HarnessError("impostor holds the genuine key")
+    same_alg = shown.get_name() == genuine.get_name()
+    cls = ["fault", "fault:impostor", "fault:impostor:" + which, "fkex:" + kex, "fhostalg:" + hostalg, "fault-on-exchange:1", "fault-on-exchange:1/impostor",
+           "client-entry:connect-hostkey", "client-entry:connect-hostkey:fault", "impostor:%s/%s" % (which, _ktype(hostalg))]
+    ctx.case(case, True, cls)
+    srv = peers.OpenServer()
+    with _pack(kex):
+        ckw = {"disabled_algorithms": {"kex": mitm.only(KEXES, kex), "keys": keys_off}}
+        link, tc, ts = peers.make_pair(client_kw=ckw, host_keys=(shown,))
+        try:
+            ce, se = _enter(tc, ts, "connect-hostkey", _expected(genuine), srv)
+            done = bool(tc.initial_kex_done)
+            seen = tc.get_remote_server_key().asbytes() if done else None
+            c_auth, s_auth = bool(tc.is_authenticated()), bool(ts.is_authenticated())
+            creds = [c for c in srv.calls if c[0].startswith("check_auth_")]
+        finally:
+            peers.shutdown(tc, ts)
+            mitm.cancel_timers(tc, ts)
+    if isinstance(ce, StillBusy):
+        ctx.inconc("fault:client-still-busy-at-timeout")
+        return True
+    bucket = "impostor:%s/%s" % (which, _ktype(hostalg))
+    detail = "user expects %s %s.., server holds and signs with %s %s..: connect(hostkey=expected, username, password) -> %r, key exchange completed=%s, server saw %r, authenticated client=%s server=%s" % (
+        genuine.get_name(), genuine.get_base64()[-16:], shown.get_name(), shown.get_base64()[-16:], ce, done, [c[0] for c in creds], c_auth, s_auth)
+    ctx.count("impostor:" + ("refused-at-negotiation" if not done else "refused-after-a-consistent-exchange" if ce is not None else "not-refused"))
+    if done and seen != shown.asbytes():
+        ctx.violation("host-key-shown", "%s:differs" % bucket, case, "get_remote_server_key() is not the key the server showed; " + detail)
+        return False
+    if creds or s_auth or c_auth:
+        ctx.violation("swapped-host-key-aborts", "%s:credentials-sent-to-impostor" % bucket, case, detail)
+        return False
+    if ce is None:
+        ctx.violation("swapped-host-key-aborts", "%s:connect-returned" % bucket, case, detail)
+        return False
+    if same_alg and not done:
+        # same algorithm: nothing but the key differs, the exchange itself must have been fine
+        ctx.count("impostor:same-type:exchange-did-not-complete(%s)" % type(ce).__name__)
+    return True
+
+
 def run_fault(ctx, case):
     kex, hostalg, fault = case["kex"], case["hostalg"], case["fault"]
+    if fault["kind"] == "impostor":
+        # (exists for the one entry that takes an expectation, and in the exchange that entry covers)
+        return run_impostor(ctx, {"kind": "fault", "kex": kex, "hostalg": hostalg, "fault": dict(fault), "entry": "connect-hostkey"})
+    case = {k_: v for k_, v in case.items() if not (k_ == "entry" and v in (None, "start_client"))}
+    entry = case.get("entry", "start_client")
     rekeys = list(case.get("rekeys") or [])  # initiators of exchanges 2..k; the last one is altered
     k = 1 + len(rekeys)
     fam = mitm.kex_family(kex)
@@ -570,6 +734,8 @@ def run_fault(ctx, case):
     signer = None
     prefix_failure = None
     res = None
+    srv = peers.OpenServer()
+    expected = _expected(peers.keypool()[HOSTALG[hostalg]]) if entry == "connect-hostkey" else None
     with _pack(kex):
         if via_server:
             link, tc, ts = _pair(kex, hostalg, server_cls=lying.EditingServer)
@@ -594,14 +760,16 @@ def run_fault(ctx, case):
             link, tc, ts = _pair(kex, hostalg)
             m = mitm.PlainMitm(link, on_packet=cb)
         try:
-            ce, se = peers.start_both(tc, ts, timeout=60.0)
+            ce, se = _enter(tc, ts, entry, expected, srv)
             done = tc.initial_kex_done
+            creds = [c[0] for c in srv.calls if c[0].startswith("check_auth_")]  # (k = 1: nothing may follow an altered exchange)
             if k >= 2:
                 if ce or se or not done:
-                    prefix_failure = ("honest-handshake-completes", type(ce or se).__name__, "client=%r server=%r" % (ce, se))
+                    prefix_failure = ("honest-handshake-completes", type(ce or se).__name__, "client entered through %s: client=%r server=%r" % (entry, ce, se))
                 else:
                     try:
-                        tc.auth_password("u", "pw")
+                        if entry == "start_client":
+                            tc.auth_password("u", "pw")
                         lying.rekey_prefix(tc, ts, rekeys[:-1])
                     except Exception as e:
                         prefix_failure = ("rekey-completes", type(e).__name__, repr(e))
@@ -626,6 +794,7 @@ def run_fault(ctx, case):
     oldlabel = kind + (":" + fault["field"] if "field" in fault else "")
     cls = ["fault", "fault:" + oldlabel + ("/" + fault["part"] if fault.get("part") else ""), "fkex:" + kex, "fhostalg:" + hostalg, "fault-on-exchange:%d" % k]
     cls.append("fault-on-exchange:%d/%s" % (k, kind))
+    cls += ["client-entry:" + entry, "client-entry:%s:fault" % entry]
     if k >= 2:
         cls.append("fault-initiator:" + ("client" if rekeys[-1] == "c" else "server"))
     if kind == "reenc":
@@ -633,7 +802,7 @@ def run_fault(ctx, case):
     if kind == "signer":
         cls.append("lying-signer:" + fault["how"])
     ctx.case(case, True, cls)
-    ktype = HOSTALG[hostalg].rstrip("b").rstrip("0123456789") if not hostalg.endswith("25519") else "ed25519"
+    ktype = _ktype(hostalg)
     bucket = "%s:%s/%s" % (label if kind in ("reenc", "signer") else oldlabel, fam, ktype)
     if state.get("blob_len_increased"):
         # one root cause whatever the kex: the length prefix of the inner signature string was made
@@ -646,15 +815,15 @@ def run_fault(ctx, case):
     must_abort = not (kind == "reenc" and fault["field"] == "pub" and fam in ("dh", "gex"))
     if k == 1:
         sent_newkeys = 21 in m.types("c2s")
-        if ce is None and not done and not sent_newkeys:
+        if (ce is None or isinstance(ce, StillBusy)) and not done and not sent_newkeys:
             # start_client returns normally when its timeout expires: the client was still busy
             # (e.g. Message.get_mpint on a length prefix just below 2**20 zero-pads to 1 MiB and
             # util.inflate_long needs about a minute for that) - not an acceptance
             ctx.inconc("fault:client-still-busy-at-timeout")
             return True
-        accepted = bool(done or sent_newkeys)
-        what = "accepted" if ce is None else ("initial_kex_done" if done else "sent-NEWKEYS")
-        detail = "start_client raised %r, initial_kex_done=%s, active=%s, client sent types %r" % (ce, done, active, m.types("c2s"))
+        accepted = bool(done or sent_newkeys or creds)
+        what = "accepted" if ce is None else ("initial_kex_done" if done else "sent-NEWKEYS" if sent_newkeys else "credentials-sent")
+        detail = "%s raised %r, initial_kex_done=%s, active=%s, client sent types %r, server application saw %r" % (entry, ce, done, active, m.types("c2s"), creds)
     else:
         try:
             newkeys = lying.client_newkeys(c_chunks, c_epochs)
@@ -699,13 +868,15 @@ def fault_st(kex_st):
     gg = st.fixed_dictionaries({"kind": st.just("gexgroup"), "field": st.sampled_from(["p", "g"]), "n": st.integers(0, 10**6)})
     reenc = st.fixed_dictionaries({"kind": st.just("reenc"), "field": st.sampled_from(["pub", "pub", "k_s"]), "n": st.integers(0, 1000)})
     signer = st.fixed_dictionaries({"kind": st.just("signer"), "how": st.sampled_from(SIGNER_HOWS), "n": st.integers(0, 10**6)})
+    impostor = st.fixed_dictionaries({"kind": st.just("impostor"), "key": st.sampled_from(["same-type", "same-type", "other-type"]), "n": st.integers(0, 3)})
     return st.fixed_dictionaries(
         {
             "kind": st.just("fault"),
             "kex": kex_st,
             "hostalg": st.sampled_from(ALLKEYALGS),
-            "fault": st.one_of(flip, flip, flip, pub, sigalg, swap, rep, gg, reenc, reenc, signer, signer),
+            "fault": st.one_of(flip, flip, flip, pub, sigalg, swap, rep, gg, reenc, reenc, signer, signer, impostor, impostor.map(lambda v: v)),
             "rekeys": st.sampled_from(REKEYS),
+            "entry": st.sampled_from(ENTRIES),
         }
     )
 
@@ -740,6 +911,7 @@ def honest_st(kex_st, max_rekeys=3):
             "server": st.sampled_from(["paramiko", "paramiko", "ref-uncompressed", "ref-compressed", "ref-compressed", "ref-short", "ref-short", "ref-signpad"]),
             "ident": st.fixed_dictionaries({"c": ident_st(False), "s": ident_st(True)}),
             "plan": st.one_of(st.none(), st.lists(plan_step_st(kex_st), min_size=max_rekeys, max_size=max_rekeys)),
+            "entry": st.sampled_from(ENTRIES),
         }
     )
 
@@ -819,7 +991,29 @@ def fault_floor():
             j += 1
     for k in (2, 3):
         floor.append({"kind": "fault", "kex": "diffie-hellman-group-exchange-sha256", "hostalg": ALLKEYALGS[k], "fault": {"kind": "gexgroup", "field": "pg"[k % 2], "n": k}, "rekeys": pats[k][k % 2]})
+    # the API the client is entered through rotates over the sessions above ...
+    for j, c in enumerate(floor):
+        if ENTRIES[j % 3] != "start_client":
+            c["entry"] = ENTRIES[j % 3]
+    # ... every host key algorithm's swapkey (K_S replaced on the wire, signature left alone) also against a client that
+    # was told which key to expect, and the whole server swapped for an impostor with a key of its own (consistent
+    # exchange): every host key algorithm x another key of the same algorithm / a key of another type, kex rotating
+    for i, hostalg in enumerate(ALLKEYALGS):
+        floor.append({"kind": "fault", "kex": CHEAP[1], "hostalg": hostalg, "fault": {"kind": "swapkey"}, "entry": "connect-hostkey"})
+        floor.append({"kind": "fault", "kex": CHEAPISH[i % len(CHEAPISH)], "hostalg": hostalg, "fault": {"kind": "impostor", "key": "same-type", "n": 0}})
+        floor.append({"kind": "fault", "kex": CHEAPISH[(i + 3) % len(CHEAPISH)], "hostalg": hostalg, "fault": {"kind": "impostor", "key": "other-type", "n": i}})
     return floor
+
+
+def entry_floor():
+    """Honest sessions entered through Transport.connect(hostkey=<the server's key>, username, password) for every host
+    key algorithm (0..2 re-exchanges), and through Transport.connect(username, password) for one per key type."""
+    out = []
+    for i, hostalg in enumerate(ALLKEYALGS):
+        out.append({"kind": "honest", "kex": CHEAPISH[(i + 1) % len(CHEAPISH)], "hostalg": hostalg, "rekeys": [[], ["c"], ["s", "c"]][i % 3], "entry": "connect-hostkey"})
+    for i, hostalg in enumerate(["rsa-sha2-256", "ecdsa-sha2-nistp384", "ssh-ed25519"]):
+        out.append({"kind": "honest", "kex": CHEAP[i], "hostalg": hostalg, "rekeys": [["s"], [], ["c"]][i], "entry": "connect"})
+    return out
 
 
 def run(ctx):
@@ -857,8 +1051,10 @@ def run(ctx):
         c = {"kind": "honest", "kex": kex, "hostalg": hostalg, "rekeys": rk, "server": server}
         if j % 3 == 1:  # identification strings are an input of H: every third floor session sends non-default ones
             c["ident"] = IDENT_FLOOR[(j // 3) % len(IDENT_FLOOR)]
+        if j % 4 == 2:  # the API the client is entered through: every fourth floor session through a connect() variant
+            c["entry"] = ENTRIES[1 + (j // 4) % 2]
         run_honest(ctx, c)
-    for j, c in enumerate(plan_floor()):
+    for j, c in enumerate(entry_floor() + plan_floor()):
         if ctx.out_of_time():
             break
         if j % ctx.nworkers == ctx.worker:
